@@ -1,5 +1,5 @@
 """C20 — mismatched shapes rejected; operands never mutated; clones independent."""
-from .pdb import walk, strip, loc
+from .pdb import walk, strip, loc, ancestors as _anc
 from .terms import Ctx, lin_add, lin_scale, lin_sub, num, show, base_ty
 from .common import (P, F, LEN, SIZE, NE, GE, GT, EQ, effective_guards, entry_guards, rule_no_unsafe, rule_freeze,
                      receiver_mode, param_modes, forwards_to, callee_path, call_args, is_call_like, adt_of,
@@ -179,7 +179,8 @@ def rule_reject(rep, pdb):
     for path, fixed in (("mesh2d::Mesh2D<T>::cross_section_xnode", 1), ("mesh2d::Mesh2D<T>::cross_section_ynode", 2)):
         fn = pdb.fn(path)
         key = "reject-via/%s" % path
-        rule = "the node argument reaches the checked accessor get_nodes_vars in its own position; self.vars is not indexed directly"
+        rule = ("the node argument is range-checked on every call: an explicit `>= nx/ny` panic guard at entry, or the checked accessor get_nodes_vars reached "
+                "unconditionally (a call inside the loop over the OTHER axis is not reached when that axis is empty); self.vars is not indexed directly")
         if fn is None:
             rep.missing(key, rule, "function not found")
             continue
@@ -187,7 +188,29 @@ def rule_reject(rep, pdb):
         calls = [n for n in walk(fn["body"]) if n.get("k") == "MethodCall" and callee_path(n) == "mesh2d::Mesh2D<T>::get_nodes_vars"]
         direct = [n for n in walk(fn["body"]) if n.get("k") == "Index"]
         ok = bool(calls) and all(ctx.term(call_args(c)[fixed]) == ("param", 1) for c in calls) and not direct
-        rep.add(key, rule, ok, calls[0] if calls else fn["body"], "calls=%d direct-index=%d" % (len(calls), len(direct)))
+        in_loop = all(any(a.get("k") in ("For", "While", "Loop", "If") for a in _anc(c)) for c in calls)
+        dim = F(P(0), "nx" if fixed == 1 else "ny")
+        guarded = GE(P(1), dim) in effective_guards(pdb, fn)
+        ok = ok and (guarded or not in_loop)
+        rep.add(key, rule, ok, calls[0] if calls else fn["body"], "calls=%d direct-index=%d explicit entry guard=%s accessor only inside a loop=%s" % (len(calls), len(direct), guarded, in_loop))
+
+
+def rule_var_guard(rep, pdb):
+    """The variable index of the mesh integrals / apply is used only inside the loops over the nodes: it needs an explicit
+    entry guard, or a mesh with too few nodes for the loops to run accepts any index silently."""
+    for path, vpos, nv in (("mesh1d::Mesh1D<f64, f64>::trapezium", 1, F(P(0), "nvars")), ("mesh2d::Mesh2D<f64>::trapezium", 1, F(P(0), "nvars")),
+                           ("mesh2d::Mesh2D<f64>::square_trapezium", 1, F(P(0), "nvars")), ("mesh2d::Mesh2D<T>::apply", 2, F(P(0), "nvars"))):
+        fn = pdb.fn(path)
+        key = "reject/%s/var" % path
+        rule = "the variable index is rejected (`var >= nvars` panics) at entry, before and independently of the loops over the nodes"
+        if fn is None:
+            rep.missing(key, rule, "function not found")
+            continue
+        ctx = Ctx.for_fn(pdb, fn)
+        uses = [n for n in walk(fn["body"]) if n.get("k") == "Index" and ctx.term(n["idx"]) == P(vpos)]
+        outside = [n for n in uses if not any(a.get("k") in ("For", "While", "Loop", "If") for a in _anc(n))]
+        guarded = GE(P(vpos), nv) in effective_guards(pdb, fn)
+        rep.add(key, rule, guarded or bool(outside), uses[0] if uses else fn["body"], "explicit entry guard=%s uses=%d of which outside every loop=%d" % (guarded, len(uses), len(outside)))
 
 
 def _show_atom(a, ctx):
@@ -380,6 +403,7 @@ def rule_clone_independent(rep, pdb):
 
 def run(rep, pdb, tier):
     rule_reject(rep, pdb)
+    rule_var_guard(rep, pdb)
     extra = rule_operands_intact(rep, pdb)
     n = rule_owned_equals_borrowed(rep, pdb)
     rule_clone_independent(rep, pdb)
